@@ -503,21 +503,31 @@ func (e *vc34Env) mutate(t *rapid.T, nr *payload.P2PNotaryRequest, alpha keys.Pu
 			mt.Signers = slices.Insert(mt.Signers, 2, transaction.Signer{Account: vc34Hash(0x99)})
 		}
 	case "signer-missing":
-		mt.Signers = mt.Signers[:len(mt.Signers)-1]
+		if len(mt.Signers) > 0 {
+			mt.Signers = mt.Signers[:len(mt.Signers)-1]
+		}
 	case "signer-extra":
 		mt.Signers = append(mt.Signers, transaction.Signer{Account: vc34Hash(0x98)})
 	case "alphabet-signer-wrong":
-		mt.Signers[1].Account = e.keys[7].GetScriptHash()
+		if len(mt.Signers) > 1 {
+			mt.Signers[1].Account = e.keys[7].GetScriptHash()
+		}
 	case "attr-none":
 		mt.Attributes = nil
 	case "attr-two":
 		mt.Attributes = append(mt.Attributes, transaction.Attribute{Type: transaction.HighPriority})
 	case "attr-wrong-type":
 		mt.Attributes = []transaction.Attribute{{Type: transaction.NotValidBeforeT, Value: &transaction.NotValidBefore{Height: 1}}}
-	case "nkeys+1":
-		mt.Attributes[0].Value = &transaction.NotaryAssisted{NKeys: mt.Attributes[0].Value.(*transaction.NotaryAssisted).NKeys + 1}
-	case "nkeys-1":
-		mt.Attributes[0].Value = &transaction.NotaryAssisted{NKeys: mt.Attributes[0].Value.(*transaction.NotaryAssisted).NKeys - 1}
+	case "nkeys+1", "nkeys-1":
+		if len(mt.Attributes) > 0 {
+			if na, ok := mt.Attributes[0].Value.(*transaction.NotaryAssisted); ok {
+				d := uint8(1)
+				if m == "nkeys-1" {
+					d = 0xff
+				}
+				mt.Attributes[0].Value = &transaction.NotaryAssisted{NKeys: na.NKeys + d}
+			}
+		}
 	case "proxy-witness-inv":
 		mt.Scripts[0].InvocationScript = []byte{1}
 	case "proxy-witness-ver":
@@ -530,7 +540,7 @@ func (e *vc34Env) mutate(t *rapid.T, nr *payload.P2PNotaryRequest, alpha keys.Pu
 		other[0] = e.keys[8].PublicKey()
 		ms := vc34Multisig(other)
 		mt.Scripts[1].VerificationScript = ms
-		if rapid.Bool().Draw(t, "alsoSigner") {
+		if rapid.Bool().Draw(t, "alsoSigner") && len(mt.Signers) > 1 {
 			mt.Signers[1].Account = hash.Hash160(ms)
 		}
 	case "alphabet-witness-wrong-m":
@@ -543,7 +553,7 @@ func (e *vc34Env) mutate(t *rapid.T, nr *payload.P2PNotaryRequest, alpha keys.Pu
 			ms = append(ms, byte(opcode.NOP))
 		}
 		mt.Scripts[1].VerificationScript = ms
-		if rapid.Bool().Draw(t, "alsoSigner") {
+		if rapid.Bool().Draw(t, "alsoSigner") && len(mt.Signers) > 1 {
 			mt.Signers[1].Account = hash.Hash160(ms)
 		}
 	case "invoker-witness-empty":
@@ -561,7 +571,9 @@ func (e *vc34Env) mutate(t *rapid.T, nr *payload.P2PNotaryRequest, alpha keys.Pu
 	case "fb-no-nvb":
 		fb.Attributes[1] = transaction.Attribute{Type: transaction.HighPriority}
 	case "fb-two-nvb":
-		fb.Attributes[2] = transaction.Attribute{Type: transaction.NotValidBeforeT, Value: &transaction.NotValidBefore{Height: height + 60}}
+		if len(fb.Attributes) > 2 {
+			fb.Attributes[2] = transaction.Attribute{Type: transaction.NotValidBeforeT, Value: &transaction.NotValidBefore{Height: height + 60}}
+		}
 	case "fb-expired-eq":
 		setNVB(height)
 	case "fb-expired-lt":
@@ -750,7 +762,7 @@ func TestVerifC34CoSignOnlyValidated(t *testing.T) {
 		height := uint32(rapid.SampledFrom([]int{0, 1, 100, 1 << 20}).Draw(t, "height"))
 		invoker := rapid.Bool().Draw(t, "invokerWitness")
 		oldDummy := rapid.Bool().Draw(t, "oldDummy")
-		presigned := rapid.IntRange(0, 5).Draw(t, "presigned") == 0
+		presigned := rapid.IntRange(0, 5).Draw(t, "presigned") == 5
 		nr := e.validNR(script, alpha, invoker, oldDummy, presigned, height)
 		var faults vc34Faults
 		var muts []string
